@@ -118,6 +118,10 @@ static void mode_models() {
             // one case in four: very wide gap (comparable to the bending radius) and frequencies thousands of times the cutoff, where
             // hundreds of plate modes contribute: the sum over modes must not be cut short
             bool far = (c / 6) % 4 == 1;
+            // a few cases: gap ten times the bending radius at harmonics of 1e5, where more than 65535 plate modes propagate and are summed
+            bool extreme = (c / 6) % 16 == 2;
+            if (extreme) { far = false; n = 8 + n % 4; g = R * r.uni(8, 12); nc = std::sqrt(2.0 / 3.0) * std::pow(PI * R / g, 1.5); fc = nc * f0;
+                           fmax = 2 * f0 * r.uni(0.8e5, 1.5e5) * (n - 1.0) / (n / 2); M.ev("pp_cases_with_more_than_65535_modes"); }
             if (far) { n = 48 + n % 32; g = R / r.logu(0.5, 4); nc = std::sqrt(2.0 / 3.0) * std::pow(PI * R / g, 1.5); fc = nc * f0; fmax = fc * r.logu(3000, 20000) * 2; M.ev("pp_far_above_cutoff_cases"); }
             ds << "parallelplates n=" << n << " g=" << g << " R=" << R << " fc=" << fc << " fmax=" << fmax;
             M.begin_case(c, ds.str());
